@@ -157,8 +157,14 @@ func lockCtxScenarios() []hx.Scenario {
 	for _, name := range combos(seqs(alpha, 2), 3, canonPlain, func(th [][]string) bool { return totalOps(th) <= 4 }) {
 		add(name, true, 2)
 	}
+	// 4 callers x 1 section (thorough): bound 2 with at most one racing
+	// canceller, bound 1 beyond (5-6 threads: ~8*10^5 schedules each at bound 2)
 	for _, name := range combos(seqs(alpha, 1), 4, canonPlain, nil) {
-		add(name, true, 2)
+		b := 2
+		if racing(name) > 1 {
+			b = 1
+		}
+		add(name, true, b)
 	}
 	return out
 }
